@@ -220,6 +220,31 @@ func run(c *mon.Ctx) {
 		})
 		c.Class("concurrent-callers")
 	})
+	// two descriptors read by several goroutines at once (the relations only read them)
+	c.Stream("concurrent-readers-of-two-descriptors", c.N(8, 200), func(i int, r *gen.Rand) {
+		c.ConcurrentReaders("pair of descriptors", c.N(300, 300), r, func(q *gen.Rand) func() string {
+			a := attrs{Type: q.PickByte([]byte{0x35, 0x37, 0x31, 0x34, 0x11, 0x41, 0x10, 0x36, 0x44, 0x51, q.Byte()}), Event: uint32(1 + q.Intn(2)), PTS: uint64(1000 + 1000*q.Intn(2)), HasPTS: true, SegNum: byte(q.Intn(3)), SegExp: byte(q.Intn(3)), Noise: q.Uint32() | 1}
+			b := attrs{Type: q.PickByte([]byte{0x34, 0x36, 0x30, 0x10, 0x40, 0x3c, 0x44, 0x13, 0x20, q.Byte()}), Event: uint32(1 + q.Intn(2)), PTS: uint64(1000 + 1000*q.Intn(2)), HasPTS: true, SegNum: byte(q.Intn(3)), SegExp: byte(q.Intn(3)), Noise: q.Uint32() | 1}
+			da, db := mk(a), mk(b)
+			a, b = seen(da, a), seen(db, b)
+			want := ref.CanClose(a.Type, b.Type, a.Event == b.Event, a.PTS == b.PTS, a.SegNum == a.SegExp)
+			back := ref.CanClose(b.Type, a.Type, a.Event == b.Event, a.PTS == b.PTS, b.SegNum == b.SegExp)
+			eq := a.HasPTS && b.HasPTS && a.Type == b.Type && a.PTS == b.PTS && a.Event == b.Event && a.SegNum == b.SegNum && a.SegExp == b.SegExp && a.HasSub == b.HasSub && (!a.HasSub || a.SubNum == b.SubNum && a.SubExp == b.SubExp)
+			return func() string {
+				if da.CanClose(db) != want || db.CanClose(da) != back {
+					return fmt.Sprintf("type %#02x / type %#02x: CanClose = %v / %v, the table says %v / %v", a.Type, b.Type, da.CanClose(db), db.CanClose(da), want, back)
+				}
+				if da.Equal(db) != eq || db.Equal(da) != eq || !da.Equal(da) {
+					return fmt.Sprintf("Equal(a,b)=%v Equal(b,a)=%v Equal(a,a)=%v, by the definition %v", da.Equal(db), db.Equal(da), da.Equal(da), eq)
+				}
+				if da.IsIn() != ref.IsSegIn(a.Type) || da.IsOut() != ref.IsSegOut(a.Type) {
+					return fmt.Sprintf("type %#02x: IsIn=%v IsOut=%v", a.Type, da.IsIn(), da.IsOut())
+				}
+				return ""
+			}
+		})
+		c.Class("concurrent-readers-of-two-descriptors")
+	})
 	c.StreamSeedless("canclose", 256, func(in int, r *gen.Rand) {
 		const P, Q = 900000, 900090
 		type inc struct {
